@@ -56,7 +56,7 @@ def answer (real : Bool) (r : Option NPath) : String :=
 def cfKinds : List (String × Nat × Bool) := [
   ("bulk", 1, false), ("bulkH", 1, false), ("docR", 1, false), ("docE", 1, false), ("docH", 1, false),
   ("pidxR", 1, false), ("pidxE", 1, false), ("pidxH", 1, false), ("splunk", 1, false), ("otlplog", 1, false),
-  ("delR", 1, false), ("delE", 1, false), ("delH", 1, false), ("delapiE", 1, false), ("srchidx", 1, false), ("sortcol", 2, false),
+  ("delR", 1, false), ("delE", 1, false), ("delH", 1, false), ("delapiE", 1, false), ("srchidx", 1, false), ("sortcol", 2, false), ("evkey", 1, false), ("sortq", 1, false),
   ("aliasAdd", 2, false), ("aliasRm", 2, false), ("palE", 2, false), ("palH", 2, false), ("galE", 1, false), ("galH", 1, false),
   ("headE", 1, false), ("headH", 1, false),
   ("upload", 1, false), ("uploadO", 1, false), ("lkgetR", 1, false), ("lkgetE", 1, false), ("lkgetH", 1, true),
